@@ -214,6 +214,7 @@ const (
 	FaultOversized = "oversized" // length prefix above 16 MiB, then the peer goes away
 	FaultClose     = "close"     // connection closed without a reply
 	FaultHuge      = "huge"      // length prefix 2^32-16, then the peer goes away
+	FaultHang      = "hang"      // no reply at all and the connection stays open (only used under the scheduler)
 )
 
 // AllFaults lists the fault kinds in simplest-first order.
@@ -323,6 +324,8 @@ func (a *Agent) Handle(frame []byte) vnet.Reply {
 		return vnet.Reply{Raw: []byte{0xff, 0xff, 0xff, 0xf0}, Close: true}
 	case FaultClose:
 		return vnet.Reply{Close: true}
+	case FaultHang:
+		return vnet.Reply{}
 	}
 	return vnet.Reply{Raw: a.Serve(frame)}
 }
